@@ -37,9 +37,9 @@ def conc(cls, k):
     if cls == "float64":
         return [-1.5e300, -2.25, -0.5, 0.0, 0.75, 3.5, float("inf")][k]
     if cls in ("obj_str", "str"):
-        return ["Aaaa", "Bcde", "aéz", "abcd", "abce", "b中z", "zzzz"][k]    # UTF-8 byte order = this order
+        return ["Aaaa", "Bcde", "abcd", "abce", "aéz", "b中z", "zzzz"][k]    # UTF-8 byte order = this order
     if cls == "obj_str_e":
-        return ["", "Bcde", "aéz", "abcd", "abce", "b中z", "zzzz"][k]
+        return ["", "Bcde", "abcd", "abce", "aéz", "b中z", "zzzz"][k]
     if cls == "obj_bytes":
         return [b"\x00\x01\x02\x03", b"Aaaa", b"abcd", b"abce", b"b\x7fzz", b"\x80abc", b"\xff\xfe\xfd\xfc"][k]
     if cls in ("dt_ns", "dt_us", "dt_ms", "dt_s", "dt_tz"):
